@@ -138,7 +138,7 @@ def compare(R):
     for n, a, b in zip(names, obs, mod):
         if a != b:
             out.append(("state:%s-differs" % n, {"manager": a, "model": b}))
-    if R.log != R.M.log:
+    if not R.M.log_matches(R.log):
         out.append(("callback-log-differs", {"manager_tail": R.log[-4:], "model_tail": R.M.log[-4:], "len_manager": len(R.log), "len_model": len(R.M.log)}))
     m = R.m
     for c in CATS:
@@ -282,7 +282,7 @@ def run(ctx):
         "distinct = (action, outcome, resulting model state: ids, current, mappings, template)" % (depth, len(ALPHABET))
     )
     ctx.assumptions = [
-        "selection is only made among registered systems and None; every SetCurrent call announces the (possibly unchanged) current system once",
+        "selection is only made among registered systems and None; re-selecting the current system may be announced once more or not at all",
         "default units in mappings belong to the category's quantity type; the read-only flag is not part of the statement",
         "conversion reference is UnitDatabase.Convert (C01/C02 vouch for it)",
     ]
